@@ -369,6 +369,28 @@ fn check_wcet_demand(_seed: u64) -> i32 {
         let exp_mf = mfl(n1, &[c1 + 4, c1]).min(mfl(n2p, &[c2, c2 + 2]));
         let got_mf = us(demand::Slice::of(&mf).least_wcet_in_interval(d(delta)));
         if got_mf != exp_mf { return fail("demand::Slice::least_wcet_in_interval", format!("{{\"multiframe\": [[{}, [{}, {}]], [{}, [{}, {}]]], \"delta\": {}}}", t1, c1 + 4, c1, t2, c2, c2 + 2, delta), format!("{}", got_mf), format!("{}", exp_mf)); }
+        // n-largest-jobs restriction on every level (RBF, Slice, Aggregate), multiframe and curve cost models:
+        // sum of the n largest costs among the jobs that can arrive in delta
+        {
+            let mfc1 = [c1 + 4, c1, c1 + 1]; let cuv = [c2, c2 + c2 + 2, c2 + c2 + 2 + 1];   // cumulative curve: job costs c2, c2+2, 1, then repeating
+            let rb_mf = RBF::new(Periodic::new(d(t1)), wcet::Multiframe::new(mfc1.iter().map(|x| s(*x)).collect()));
+            let rb_cu = RBF::new(Periodic::new(d(t2)), wcet::Curve::new(cuv.iter().map(|x| s(*x)).collect()));
+            let jobs_mf: Vec<u64> = (0..n1 as usize).map(|i| mfc1[i % 3]).collect();
+            let cu_cost = |k: usize| (k as u64 / 3) * cuv[2] + if k % 3 > 0 { cuv[k % 3 - 1] } else { 0 };
+            let jobs_cu: Vec<u64> = (0..n2p as usize).map(|i| cu_cost(i + 1) - cu_cost(i)).collect();
+            let largest = |v: &Vec<u64>, k: usize| { let mut w = v.clone(); w.sort(); w.reverse(); w.iter().take(k).sum::<u64>() };
+            let g = guarded(|| us(rb_mf.service_needed_by_n_jobs(d(delta), n)));
+            if g != Ok(largest(&jobs_mf, n)) { return fail("demand::RBF::service_needed_by_n_jobs", format!("{{\"T\": {}, \"multiframe\": {:?}, \"delta\": {}, \"n\": {}}}", t1, mfc1, delta, n), format!("{:?}", g), format!("{}", largest(&jobs_mf, n))); }
+            let g = guarded(|| us(rb_cu.service_needed_by_n_jobs(d(delta), n)));
+            if g != Ok(largest(&jobs_cu, n)) { return fail("demand::RBF::service_needed_by_n_jobs", format!("{{\"T\": {}, \"cost curve\": {:?}, \"delta\": {}, \"n\": {}}}", t2, cuv, delta, n), format!("{:?}", g), format!("{}", largest(&jobs_cu, n))); }
+            let both = vec![rb_mf.clone(), RBF::new(Periodic::new(d(t2)), wcet::Multiframe::new(vec![s(c2), s(c2 + 2)]))];
+            let jobs_b: Vec<u64> = (0..n2p as usize).map(|i| [c2, c2 + 2][i % 2]).collect();
+            let mut all_jobs = jobs_mf.clone(); all_jobs.extend(jobs_b.iter());
+            let exp_all = largest(&all_jobs, n); let exp_pc = largest(&jobs_mf, n) + largest(&jobs_b, n);
+            let slb = demand::Slice::of(&both); let agb = demand::Aggregate::new(both.clone());
+            let g = guarded(|| (us(slb.service_needed_by_n_jobs(d(delta), n)), us(agb.service_needed_by_n_jobs(d(delta), n)), us(slb.service_needed_by_n_jobs_per_component(d(delta), n)), us(agb.service_needed_by_n_jobs_per_component(d(delta), n))));
+            if g != Ok((exp_all, exp_all, exp_pc, exp_pc)) { return fail("demand::service_needed_by_n_jobs(aggregates)", format!("{{\"multiframe\": [[{}, {:?}], [{}, [{}, {}]]], \"delta\": {}, \"n\": {}}}", t1, mfc1, t2, c2, c2 + 2, delta, n), format!("{:?}", g), format!("({0}, {0}, {1}, {1})", exp_all, exp_pc)); }
+        }
         let jc: u64 = ag.job_cost_iter(d(delta)).map(us).sum();
         if jc != exp_sum { return fail("demand::job_cost_iter", format!("{{\"tasks\": [[{}, {}], [{}, {}]], \"delta\": {}}}", t1, c1, t2, c2, delta), format!("{}", jc), format!("{}", exp_sum)); }
     }}}}}}
@@ -602,6 +624,149 @@ fn check_ros2(seed: u64) -> i32 {
     0
 }
 
+fn check_ros2_bw_all(seed: u64) -> i32 {
+    use response_time_analysis::ros2;
+    let mut r = Rng(seed ^ 0x2052);
+    for _iter in 0..1200 {
+        // supply
+        let p = 1 + r.below(6); let q = 1 + r.below(p); let dl = q + r.below(p - q + 1);
+        let (sb, pp, qq, dd, sdesc) = supply_case(r.below(3), q, dl, p);
+        let sbf = move |t: u64| sbf_spec(pp, qq, dd, t as u128) as u64;
+        let limit = 1 + r.below(70);
+        // ---------------- rr / bw: callbacks with sporadic arrivals and scalar costs
+        let n = 1 + r.below(3) as usize;
+        let cbs: Vec<Cb> = (0..n).map(|_| { let t = 3 + r.below(9); Cb { t, j: r.below(t + 2), c: 1 + r.below(3), rtb: r.below(12), kind: r.below(4) as u8, prio: r.below(3) as i32 } }).collect();
+        let abs: Vec<Sporadic> = cbs.iter().map(|cb| Sporadic::new(d(cb.t), d(cb.j))).collect();
+        let cms: Vec<Scalar> = cbs.iter().map(|cb| Scalar::new(s(cb.c))).collect();
+        // subchain: one or two distinct callbacks of the workload; the last one is the end of the chain
+        let e = r.below(n as u64) as usize;
+        let first = r.below(n as u64) as usize;
+        let chain: Vec<usize> = if n >= 2 && first != e && r.below(2) == 0 { vec![first, e] } else { vec![e] };
+        let eoc = cbs[e];
+        let npp: u64 = chain.iter().map(|&i| cbs[i].na(cbs[i].rtb)).sum();
+        let mut desc = format!("{{\"supply\": {}, \"limit\": {}, \"callbacks(t,j,c,rtb,kind,prio)\": {:?}, \"subchain\": {:?}}}", sdesc, limit,
+                           cbs.iter().map(|c| (c.t, c.j, c.c, c.rtb, c.kind, c.prio)).collect::<Vec<_>>(), chain);
+        macro_rules! cmp { ($name:expr, $got:expr, $exp:expr) => {{
+            let got = view(&guarded(|| $got)); let exp = $exp;
+            if got != Ok(exp) { return fail($name, desc.clone(), format!("{:?}", got), format!("{:?}", exp)); }
+        }}}
+        {
+            let wl: Vec<_> = (0..n).map(|i| ros2::rr::Callback::new(d(cbs[i].rtb), &abs[i], &cms[i], ros2_kind(&cbs[i]))).collect();
+            let sc: Vec<&ros2::rr::Callback<Sporadic, Scalar>> = chain.iter().map(|&i| &wl[i]).collect();
+            let exp = (|| {
+                let w = |x: u64| 1 + (0..n).filter(|&i| i != e).map(|i| { let cb = &cbs[i]; cb.c * cb.capped(&eoc, cb.na((x + cb.rtb).saturating_sub(1)), npp) }).sum::<u64>()
+                                   + eoc.c * eoc.na((x + eoc.rtb).saturating_sub(1)).saturating_sub(1);
+                let s_star = scan_sbf(&sbf, 0, limit, &w)?;
+                Some(st_naive(&sbf, sbf(s_star).saturating_sub(1) + eoc.c))
+            })();
+            cmp!("ros2::rr::rta_subchain", ros2::rr::rta_subchain(&*sb, &wl, &sc, d(limit)), exp);
+        }
+        {
+            let wl: Vec<_> = (0..n).map(|i| ros2::bw::Callback::new(d(cbs[i].rtb), &abs[i], &cms[i], ros2_kind(&cbs[i]))).collect();
+            let sc: Vec<&ros2::bw::Callback<Sporadic, Scalar>> = chain.iter().map(|&i| &wl[i]).collect();
+            let exp = (|| {
+                let intf = |delta: u64, act: u64| (0..n).filter(|&i| i != e).map(|i| { let cb = &cbs[i]; cb.c * cb.capped(&eoc, cb.na(delta), cb.na(act) + npp) }).sum::<u64>();
+                let max_offset = scan_sbf(&sbf, 0, limit, &|ta| 1 + intf(ta, ta) + eoc.c * eoc.na(ta))?;
+                let mut best = 0u64;
+                for a in 0..max_offset {
+                    let is_step = (0..n).any(|i| if i == e { cbs[i].na(a) != cbs[i].na(a + 1) } else { cbs[i].is_pp() && a > 0 && cbs[i].na(a - 1) != cbs[i].na(a) });
+                    let _ = is_step;
+                    let si = eoc.c * eoc.na(a + 1).saturating_sub(1);
+                    let s_star = scan_sbf(&sbf, 0, limit, &|x| 1 + intf(x, a) + si)?;
+                    let f_star = st_naive(&sbf, sbf(s_star).saturating_sub(1) + eoc.c);
+                    best = best.max(if chain.len() == 1 { f_star.saturating_sub(a) } else { f_star });
+                }
+                Some(best)
+            })();
+            cmp!("ros2::bw::rta_subchain(every offset)", ros2::bw::rta_subchain(&*sb, &wl, &sc, d(limit)), exp);
+        }
+        // ---------------- ECRTS'19: request-bound functions of sporadic tasks
+        let mk = |r: &mut Rng, k: usize| -> Vec<(u64, u64, u64)> { (0..k).map(|_| { let t = 3 + r.below(9); (t, r.below(t + 2), 1 + r.below(3)) }).collect() };
+        let own = mk(&mut r, 1)[0];
+        let k_other = r.below(3) as usize; let others = mk(&mut r, k_other);
+        let k_pre = r.below(3) as usize; let prefix = mk(&mut r, k_pre);
+        let b = r.below(4);
+        let rbf1 = |x: &(u64, u64, u64), dl: u64| if dl == 0 { 0 } else { x.2 * ceil_div(dl + x.1, x.0) };
+        let sum = |v: &Vec<(u64, u64, u64)>, dl: u64| v.iter().map(|x| rbf1(x, dl)).sum::<u64>();
+        let lw_own = |dl: u64| if rbf1(&own, dl) > 0 { own.2 } else { 0 };
+        let to_rbf = |x: &(u64, u64, u64)| RBF::new(Sporadic::new(d(x.0), d(x.1)), Scalar::new(s(x.2)));
+        let own_rbf = to_rbf(&own);
+        let other_rbfs: Vec<_> = others.iter().map(to_rbf).collect();
+        let prefix_rbfs: Vec<_> = prefix.iter().map(to_rbf).collect();
+        let mut full_rbfs = prefix_rbfs.clone(); full_rbfs.push(own_rbf.clone());
+        let mut full = prefix.clone(); full.push(own);
+        desc = format!("{{\"supply\": {}, \"limit\": {}, \"own(t,j,c)\": {:?}, \"interfering\": {:?}, \"chain_prefix\": {:?}, \"blocking\": {}}}", sdesc, limit, own, others, prefix, b);
+        // generic evaluator: busy window, then every demand step offset <= max_bw
+        let ecrts = |dem: &dyn Fn(u64) -> u64, wb: &dyn Fn(u64) -> u64, w2: &dyn Fn(u64, u64) -> u64| -> Option<u64> {
+            let max_bw = scan_sbf(&sbf, 0, limit, wb)?;
+            let mut best = 0u64;
+            for a in 0..=max_bw {
+                if !(dem(a) < dem(a + 1)) { continue; }
+                best = best.max(scan_sbf(&sbf, a, limit, &|x| w2(a, x))?);
+            }
+            Some(best)
+        };
+        let intf_iv = |a: u64, resp: u64| { let w = lw_own(a + resp); if resp > w { a + resp - w + 1 } else { a + 1 } };
+        let all: Vec<(u64, u64, u64)> = { let mut v = others.clone(); v.push(own); v };
+        let all_rbfs: Vec<_> = all.iter().map(to_rbf).collect();
+        cmp!("ros2::rta_event_source", ros2::rta_event_source(&*sb, &demand::Slice::of(&all_rbfs), d(limit)),
+             ecrts(&|x| sum(&all, x), &|x| sum(&all, x), &|a, _| sum(&all, a + 1)));
+        cmp!("ros2::rta_timer", ros2::rta_timer(&*sb, &own_rbf, &demand::Slice::of(&other_rbfs), s(b), d(limit)),
+             ecrts(&|x| rbf1(&own, x), &|x| rbf1(&own, x) + b + sum(&others, x), &|a, x| rbf1(&own, a + 1) + sum(&others, intf_iv(a, x)) + b));
+        cmp!("ros2::rta_polling_point_callback", ros2::rta_polling_point_callback(&*sb, &own_rbf, &demand::Slice::of(&other_rbfs), d(limit)),
+             ecrts(&|x| rbf1(&own, x), &|x| rbf1(&own, x) + sum(&others, x), &|a, x| rbf1(&own, a + 1) + sum(&others, intf_iv(a, x))));
+        cmp!("ros2::rta_processing_chain", ros2::rta_processing_chain(&*sb, &own_rbf, &demand::Slice::of(&prefix_rbfs), &demand::Slice::of(&full_rbfs), &demand::Slice::of(&other_rbfs), d(limit)),
+             ecrts(&|x| sum(&full, x), &|x| sum(&full, x) + sum(&others, x), &|a, x| rbf1(&own, a + 1) + sum(&prefix, intf_iv(a, x)) + sum(&others, intf_iv(a, x))));
+    }
+    0
+}
+
+/// C07 as stated: "over EVERY offset up to the maximum busy window" (not only the demand steps the code enumerates).
+/// mode 0: scalar cost of the task under analysis; mode 1: multiframe cost (least_wcet depends on the number of jobs)
+fn check_ros2_all(seed: u64, mode: u64) -> i32 {
+    use response_time_analysis::ros2;
+    let mut r = Rng(seed ^ 0xa110ff);
+    for _iter in 0..3000 {
+        let p = 1 + r.below(10); let q = 1 + r.below(p); let dl = q + r.below(p - q + 1);
+        let (sb, pp, qq, dd, sdesc) = supply_case(r.below(3), q, dl, p);
+        let sbf = move |t: u64| sbf_spec(pp, qq, dd, t as u128) as u64;
+        let limit = if r.below(3) == 0 { 1 + r.below(70) } else { 300 };
+        let t0 = 3 + r.below(28); let j0 = if r.below(2) == 0 { r.below(21) } else { 0 };
+        let costs: Vec<u64> = if mode == 0 { vec![1 + r.below(4)] } else { let mut c: Vec<u64> = (0..2 + r.below(2)).map(|_| 1 + r.below(5)).collect(); if r.below(2) == 0 { c.sort(); c.reverse(); } c };
+        let k_other = r.below(3) as usize;
+        let others: Vec<(u64, u64, u64)> = (0..k_other).map(|_| { let t = 3 + r.below(28); (t, if r.below(2) == 0 { r.below(21) } else { 0 }, 1 + r.below(5)) }).collect();
+        let b = r.below(4);
+        let na0 = |x: u64| if x == 0 { 0 } else { ceil_div(x + j0, t0) };
+        let cost0 = |n: u64| (0..n).map(|i| costs[(i as usize) % costs.len()]).sum::<u64>();
+        let lw0 = |n: u64| costs.iter().take(n as usize).copied().min().unwrap_or(0);
+        let own = |x: u64| cost0(na0(x));
+        let lw_own = |x: u64| lw0(na0(x));
+        let rbf1 = |x: &(u64, u64, u64), dl: u64| if dl == 0 { 0 } else { x.2 * ceil_div(dl + x.1, x.0) };
+        let sum = |v: &Vec<(u64, u64, u64)>, dl: u64| v.iter().map(|x| rbf1(x, dl)).sum::<u64>();
+        let own_rbf = RBF::new(Sporadic::new(d(t0), d(j0)), wcet::Multiframe::new(costs.iter().map(|c| s(*c)).collect()));
+        let other_rbfs: Vec<_> = others.iter().map(|x| RBF::new(Sporadic::new(d(x.0), d(x.1)), Scalar::new(s(x.2)))).collect();
+        let desc = format!("{{\"supply\": {}, \"limit\": {}, \"own(t,j,costs)\": [{}, {}, {:?}], \"interfering(t,j,c)\": {:?}, \"blocking\": {}}}", sdesc, limit, t0, j0, costs, others, b);
+        let intf_iv = |a: u64, resp: u64| { let w = lw_own(a + resp); if resp > w { a + resp - w + 1 } else { a + 1 } };
+        let every = |wb: &dyn Fn(u64) -> u64, w2: &dyn Fn(u64, u64) -> u64| -> Option<u64> {
+            let max_bw = scan_sbf(&sbf, 0, limit, wb)?;
+            let mut best = 0u64;
+            for a in 0..=max_bw { best = best.max(scan_sbf(&sbf, a, limit, &|x| w2(a, x))?); }
+            Some(best)
+        };
+        macro_rules! cmp { ($name:expr, $got:expr, $exp:expr) => {{
+            let got = view(&guarded(|| $got)); let exp = $exp;
+            if got != Ok(exp) { return fail($name, desc.clone(), format!("{:?}", got), format!("{:?}", exp)); }
+        }}}
+        cmp!("ros2::rta_timer(every offset)", ros2::rta_timer(&*sb, &own_rbf, &demand::Slice::of(&other_rbfs), s(b), d(limit)),
+             every(&|x| own(x) + b + sum(&others, x), &|a, x| own(a + 1) + sum(&others, intf_iv(a, x)) + b));
+        cmp!("ros2::rta_polling_point_callback(every offset)", ros2::rta_polling_point_callback(&*sb, &own_rbf, &demand::Slice::of(&other_rbfs), d(limit)),
+             every(&|x| own(x) + sum(&others, x), &|a, x| own(a + 1) + sum(&others, intf_iv(a, x))));
+    }
+    0
+}
+fn check_ros2_all_scalar(seed: u64) -> i32 { check_ros2_all(seed, 0) }
+fn check_ros2_all_multiframe(seed: u64) -> i32 { check_ros2_all(seed, 1) }
+
 pub fn search(obligation: &str, seed: u64) -> i32 {
     let o = obligation;
     let mut ran = false;
@@ -609,7 +774,7 @@ pub fn search(obligation: &str, seed: u64) -> i32 {
     let mut rc = 0;
     if let Some(cat) = o.strip_prefix("cat:") {
         rc = match cat { "supply" => run(check_supply), "fixed_point" => run(check_fixed_point), "arrival" => run(check_arrival), "steps" => run(check_steps),
-                         "wcet_demand" => run(check_wcet_demand), "analyses" => run(check_analyses), "ros2" => run(check_ros2), _ => 3 };
+                         "wcet_demand" => run(check_wcet_demand), "analyses" => run(check_analyses), "ros2" => run(check_ros2), "ros2_all_scalar" => run(check_ros2_all_scalar), "ros2_bw_all" => run(check_ros2_bw_all), "ros2_all_multiframe" => run(check_ros2_all_multiframe), _ => 3 };
     }
     else if o.contains("src/arrival/steps") || o.contains("src/arrival/dmin") || o.contains("arrival_curve_prefix") { rc = run(check_steps); }
     else if o.contains("src/supply/") { rc = run(check_supply); if rc == 0 { rc = run(check_fixed_point); } }
